@@ -719,7 +719,8 @@ fn run_bundle<P: Payload + Clone>(ctx: &Ctx, b: &Bundle, prefix: &Option<Vec<Cal
                 if removed_arg {
                     st.check("C12", 1);
                 }
-                if !allowed.contains(&d.class) {
+                let unknown_refusal = d.class == "ErrUnknown" && allowed.iter().any(|r| r == "Self" || r == "Removed" || r == "Ancestor");
+                if !allowed.contains(&d.class) && !unknown_refusal {
                     let p = if removed_arg && allowed.iter().any(|r| r == "Removed" || r == "Panic") { "C12" } else { "C05" };
                     st.violation(keep, Finding { prop: p.into(), kind: "result".into(), detail: format!("{}{}(a={}, b={}) -> {} {} but the specification allows {:?}", if is_ins && !*checked { "unchecked " } else { "" }, c.op, c.a, c.b, d.class, d.panic_msg, allowed), case: case_json(b, prefix, Some(&c), json!(allowed), json!(d)) });
                     if allowed.len() == 1 && allowed[0] == "Ok" && prop_of_op(&c.op) != "C05" {
@@ -745,7 +746,7 @@ fn run_bundle<P: Payload + Clone>(ctx: &Ctx, b: &Bundle, prefix: &Option<Vec<Cal
                 }
                 // the effect: if the crate failed where it must not (or vice versa) the effect
                 // comparison would only repeat the same finding under another name
-                let class_ok = allowed.contains(&d.class);
+                let class_ok = allowed.contains(&d.class) || unknown_refusal;
                 if class_ok && ctx.opts.post_pulls && !failed {
                     // C10 in the state AFTER the call (larger shapes are not bundle states themselves): rev() and
                     // a few pull words of every live node against the deque oracle on its own forward sequence
@@ -805,7 +806,8 @@ fn run_bundle<P: Payload + Clone>(ctx: &Ctx, b: &Bundle, prefix: &Option<Vec<Cal
                 let mut f = sim.fork();
                 f.ids[slot - 1] = id2;
                 let d = f.apply(&o.c);
-                if !o.res.contains(&d.class) || f.arena != sim.arena {
+                let refused_unknown = d.class == "ErrUnknown" && o.res.iter().any(|r| r == "Self" || r == "Removed" || r == "Ancestor");
+                if (!o.res.contains(&d.class) && !refused_unknown) || f.arena != sim.arena {
                     st.violation(keep, Finding { prop: "C12".into(), kind: "removed-alias".into(), detail: format!("{}(a={}, b={}) with the id that get_node_id() reports for the removed node in slot {} -> {} (allowed {:?}), arena {}", o.c.op, o.c.a, o.c.b, slot, d.class, o.res, if f.arena != sim.arena { "CHANGED" } else { "unchanged" }), case: case_json(b, prefix, Some(&o.c), json!(o.res), json!(d)) });
                 }
             }
